@@ -1,6 +1,7 @@
 package props
 
 import (
+	"io"
 	"net/http"
 
 	"verifharness/verif"
@@ -12,6 +13,7 @@ import (
 func init() {
 	register("C11_Programs", C11_Programs)
 	register("C11_StoreFailure", C11_StoreFailure)
+	register("C11_StreamedBody", C11_StreamedBody)
 }
 
 type underWrap struct{ http.ResponseWriter }
@@ -209,4 +211,71 @@ func C11_StoreFailure() {
 	if wrote && !panicked && failing {
 		verif.Assert(firstWriteErr, "the first Write reports the failed delivery")
 	}
+}
+
+// emptyReader is a body source without WriteTo (so io.Copy looks at the destination).
+type emptyReader struct{}
+
+func (emptyReader) Read(p []byte) (int, error) { return 0, io.EOF }
+
+// C11_StreamedBody: "before any header or body byte is released", when the handler streams its
+// body: io.Copy hands the copy to the destination's ReadFrom if it has one (net/http's response
+// writer does, and so does the recording writer here). Every program of 3 operations over {put
+// session, put cookie, streamed copy, Write}: whichever way the first body bytes leave -
+// through Write or through an optional interface the writer may offer - the queued client
+// state is delivered first, exactly once.
+func C11_StreamedBody() {
+	w := world.New()
+	var trace []string
+	w.Session.Name, w.Session.Trace = "session", &trace
+	w.Cookies.Name, w.Cookies.Trace = "cookie", &trace
+	var wantS, wantC []ev
+	wrote := false
+	h := http.HandlerFunc(func(wr http.ResponseWriter, r *http.Request) {
+		for i := 0; i < 3; i++ {
+			key := verif.String("key", 2)
+			val := verif.String("val", 2)
+			switch verif.Choice("op", 4) {
+			case 0:
+				authboss.PutSession(wr, key, val)
+				if !wrote {
+					wantS = append(wantS, ev{Kind: authboss.ClientStateEventPut, Key: key, Value: val})
+				}
+			case 1:
+				authboss.PutCookie(wr, key, val)
+				if !wrote {
+					wantC = append(wantC, ev{Kind: authboss.ClientStateEventPut, Key: key, Value: val})
+				}
+			case 2:
+				// io.Copy(wr, src): the dispatch io.Copy performs, spelled out
+				if rf, ok := wr.(io.ReaderFrom); ok {
+					rf.ReadFrom(emptyReader{})
+				} else {
+					wr.Write(nil)
+				}
+				wrote = true
+			case 3:
+				wr.Write([]byte(val))
+				wrote = true
+			}
+		}
+	})
+	rec := world.NewRecorder()
+	rec.Trace = &trace
+	w.AB.LoadClientStateMiddleware(h).ServeHTTP(rec, world.Request("GET", "/", ""))
+	verif.Witness(wrote && len(wantS) > 0 && len(wantC) > 0, "both-stores-written")
+	if !wrote {
+		return
+	}
+	verif.Assert(sameEvents(w.Session.Events, wantS), "session store receives exactly the session changes made before the first body byte, in order")
+	verif.Assert(sameEvents(w.Cookies.Events, wantC), "cookie store receives exactly the cookie changes made before the first body byte, in order")
+	seenUnderlying, orderOK := false, true
+	for _, t := range trace {
+		if t == "WriteHeader" || t == "Write" {
+			seenUnderlying = true
+		} else if seenUnderlying {
+			orderOK = false
+		}
+	}
+	verif.Assert(orderOK, "client state is delivered before any body byte is released, also when the body is streamed")
 }
